@@ -45,6 +45,7 @@ func main() {
 	dumpSQL := flag.Bool("dumpsql", false, "debug: dump the sqlite model")
 	dumpCanon := flag.String("canon", "", "debug: print the canonicalised body of function key")
 	genAnchors := flag.String("genanchors", "", "maintenance: write the signature table of the current tree to this file")
+	warm := flag.Bool("warm", false, "load the repository once the way the quick tier does (fills the build cache with the export data of the dependencies) and exit")
 	flag.Parse()
 
 	seed := 0
@@ -53,6 +54,13 @@ func main() {
 	}
 	if *explain != "" {
 		os.Exit(doExplain(*explain, *repo, *out, *knownPath))
+	}
+	if *warm {
+		FastLoad = true
+		if _, err := Load(*repo); err != nil {
+			fmt.Println("warm-up load failed (the checks will report it):", err)
+		}
+		return
 	}
 	FastLoad = *tier == "quick" && os.Getenv("COERLINT_FULLLOAD") == ""
 	p, err := Load(*repo)
